@@ -54,6 +54,12 @@ Norm(nd) ==
   ELSE <<nd.kind, nd.n, nd.plen, SubSeq(nd.pfx, 1, WMin(WMin(nd.plen, 10), Len(nd.pfx))), nd.bytes,
          [i \in 1..Len(nd.ch) |-> Norm(nd.ch[i])]>>
 
+(* collation Range: the real result against the model of what the code does (no map-level meaning exists) *)
+RangeCOne(e) ==
+  (e.op = "RangeC" /\ e.pan = "") =>
+     e.keys = L1!RangeCollation(gt[Cur.t], U[e.a].o, U[e.a].t, U[e.b].o, U[e.b].t, OTab)
+RangeCFree == Each(RangeCOne)
+
 DriftFree ==
   (Started /\ Cur.op \in {"Insert", "Delete", "Dump", "Pre"} /\ Cur.pan = "" /\ Cur.hasd) =>
      Norm(Cur.dump) = Norm(gt[Cur.t])
